@@ -24,6 +24,18 @@ class CFG:
             s = [x for x in b["succ"]]
             if b.get("noret"):
                 s = []
+            # a two-way branch on a compile-time constant (assert(!"text"), if (false)): drop the infeasible edge
+            if len(s) == 2 and "tcond" in b and b.get("tk") != "SwitchStmt":
+                tn = func.node_by_id(b["tcond"])
+                cv = None
+                if tn is not None:
+                    cv = tn.get("cv")
+                    if cv is None and tn.get("k") == "bool":
+                        cv = 1 if tn["v"] else 0
+                    if cv is None and tn.get("k") == "un" and tn.get("op") == "!" and tn["e"].get("k") == "str":
+                        cv = 0
+                if cv is not None:
+                    s = [s[0], None] if cv else [None, s[1]]
             self.succ[bid] = s
             for i, e in enumerate(b["el"]):
                 self.pos.setdefault(e, (bid, i))
